@@ -69,7 +69,7 @@ func (r Int) MAX(a, b Int) Scalar {
 }
 /* -------------------------------------------------------------------------- */
 func (c Int) ABS(a Int) Scalar {
-  if c.Sign() == -1 {
+  if a.Sign() == -1 {
     c.NEG(a)
   } else {
     c.SET(a)
